@@ -252,11 +252,64 @@ impl Span {
     }
 }
 
-#[derive(Debug, Clone, PartialEq)]
+#[derive(Debug)]
 pub(crate) enum SpanInfo {
     Prim(Span),
     Cons(Span, Box<[SpanInfo; 2]>),
     Vec(Span, Vec<SpanInfo>),
+}
+
+// Like `Drop` below, `Clone` and `PartialEq` follow the chain of list cells in
+// a loop, so that copying or comparing the datum of a long list does not
+// recurse once per element.
+impl Clone for SpanInfo {
+    fn clone(&self) -> Self {
+        let (span, meta) = match self {
+            SpanInfo::Prim(span) => return SpanInfo::Prim(*span),
+            SpanInfo::Vec(span, elements) => return SpanInfo::Vec(*span, elements.clone()),
+            SpanInfo::Cons(span, meta) => (span, meta),
+        };
+        let placeholder = || SpanInfo::Prim(Span::empty());
+        let mut head = SpanInfo::Cons(*span, Box::new([meta[0].clone(), placeholder()]));
+        let mut source = &meta[1];
+        let mut slot = match &mut head {
+            SpanInfo::Cons(_, copy) => &mut copy[1],
+            _ => unreachable!(),
+        };
+        while let SpanInfo::Cons(span, meta) = source {
+            *slot = SpanInfo::Cons(*span, Box::new([meta[0].clone(), placeholder()]));
+            slot = match slot {
+                SpanInfo::Cons(_, copy) => &mut copy[1],
+                _ => unreachable!(),
+            };
+            source = &meta[1];
+        }
+        // Whatever ends the chain is not a list cell
+        *slot = source.clone();
+        head
+    }
+}
+
+impl PartialEq for SpanInfo {
+    fn eq(&self, other: &Self) -> bool {
+        let (mut a, mut b) = (self, other);
+        loop {
+            match (a, b) {
+                (SpanInfo::Cons(span_a, meta_a), SpanInfo::Cons(span_b, meta_b)) => {
+                    if span_a != span_b || meta_a[0] != meta_b[0] {
+                        return false;
+                    }
+                    a = &meta_a[1];
+                    b = &meta_b[1];
+                }
+                (SpanInfo::Prim(span_a), SpanInfo::Prim(span_b)) => return span_a == span_b,
+                (SpanInfo::Vec(span_a, elements_a), SpanInfo::Vec(span_b, elements_b)) => {
+                    return span_a == span_b && elements_a == elements_b
+                }
+                _ => return false,
+            }
+        }
+    }
 }
 
 // The metadata of a list nests one box per list element; unlink the chain in
